@@ -223,16 +223,28 @@ type node struct {
 	// clusterhold: as clusterpar, the commit of a round held back for [hold]
 	heldC chan<- server.VerifRound
 	hold  time.Duration
+	// clusternodes: two nodes sharing one log; connection c talks to node c%2
+	mgr2 *server.Manager
 }
 
 const parConns = 4
 
-func newNode(cfg *config.Config, cluster bool, par bool, held bool) *node {
+func newNode(cfg *config.Config, cluster bool, par bool, held bool, nodes bool) *node {
 	n := &node{mgr: server.NewManager(cfg), cluster: cluster || par, par: par}
 	tap := func(b []byte) {
 		n.mu.Lock()
 		n.entries = append(n.entries, append([]byte{}, b...))
 		n.mu.Unlock()
+	}
+	if nodes {
+		n.mgr2 = server.NewManager(cfg)
+		var cs [][]net.Conn
+		cs, n.roundC, n.stop = server.VerifClusterLoopbackNodes([]*server.Manager{n.mgr, n.mgr2}, parConns/2, tap)
+		n.clis = make([]net.Conn, parConns)
+		for c := 0; c < parConns; c++ {
+			n.clis[c] = cs[c%2][c/2]
+		}
+		return n
 	}
 	if held {
 		n.clis, n.heldC, n.stop = server.VerifClusterLoopbackHeld(n.mgr, parConns, tap)
@@ -394,9 +406,11 @@ func c14RunCmd(args []string) error {
 	if len(args) != 4 {
 		return fmt.Errorf("c14run <standalone|cluster> <prog> <out> <scratch>")
 	}
-	cluster := args[0] == "cluster" || args[0] == "clusterpar" || args[0] == "clusterhold"
-	par := args[0] == "clusterpar" || args[0] == "clusterhold"
+	cluster := args[0] == "cluster" || args[0] == "clusterpar" || args[0] == "clusterhold" || args[0] == "clusternodes"
+	par := args[0] == "clusterpar" || args[0] == "clusterhold" || args[0] == "clusternodes"
 	held := args[0] == "clusterhold"
+	nodes := args[0] == "clusternodes"
+
 	f, err := os.Open(args[1])
 	if err != nil {
 		return err
@@ -418,6 +432,13 @@ func c14RunCmd(args []string) error {
 	we, ef := mk(args[2] + ".entries")
 	defer ef.Close()
 	defer we.Flush()
+	var w2 *bufio.Writer
+	if nodes {
+		var f2 *os.File
+		w2, f2 = mk(args[2] + ".node2")
+		defer f2.Close()
+		defer w2.Flush()
+	}
 	progress, _ := os.Create(args[2] + ".progress")
 	defer progress.Close()
 	sc := bufio.NewScanner(f)
@@ -498,7 +519,10 @@ func c14RunCmd(args []string) error {
 			}
 			dbs, _ := strconv.Atoi(fs[2])
 			flushRound()
-			nd = newNode(setupServer(dbs, args[3]), cluster, par, held)
+			nd = newNode(setupServer(dbs, args[3]), cluster, par, held, nodes)
+			if w2 != nil {
+				fmt.Fprintf(w2, "CASE %s %d\n", fs[1], dbs)
+			}
 			caseName, step = fs[1], 0
 			fmt.Fprintf(w, "CASE %s %d\n", fs[1], dbs)
 			progress.Truncate(0)
@@ -570,6 +594,15 @@ func c14RunCmd(args []string) error {
 				}
 			}
 			fmt.Fprintf(w, "DEND %d\n", now)
+			if w2 != nil && nd.mgr2 != nil {
+				// the second node of the shared log: same dump expected
+				for i, d := range nd.mgr2.DBs {
+					for _, l := range memdb.VerifDump(d, now) {
+						fmt.Fprintf(w2, "D %d %s\n", i, l)
+					}
+				}
+				fmt.Fprintf(w2, "DEND %d\n", now)
+			}
 		case "END":
 			flushRound()
 			fmt.Fprintf(w, "END\n")
